@@ -546,7 +546,7 @@ func (c *Ctx) runInputs(kinds *core.Kinds) {
 			rootP = prm
 		}
 	}
-	sites := core.Calls(ib, core.GAddOverwrite)
+	sites := p.RegionCalls(ib, core.GAddOverwrite)
 	var resultAcc ssa.Value
 	for _, r := range core.Returns(ib) {
 		if len(r.Results) > 0 && !core.IsNilConst(r.Results[0]) {
@@ -588,11 +588,46 @@ func (c *Ctx) runInputs(kinds *core.Kinds) {
 		c.R.Add("INPUT", key+"|vertex-carries-supplied-value", "inputBuilder", pos, valOK && typeOK && nameOK && (kind == kinds.Value || kind == kinds.Out),
 			"each supplied value is registered as a vertex carrying that value, labelled with its own name/type (AddOverwrite: it replaces the coinciding requirement vertex)",
 			fmt.Sprintf("kind=%s value=%v type=%v name=%v", kind, valOK, typeOK, nameOK))
-		// edge to the root and tracked in the returned list
+		// edge to the root and tracked in the returned list — in the block of the registration, directly or through a
+		// private helper called there with the registered vertex (and the root)
 		edgeOK, tracked := false, false
-		for _, e := range core.Calls(ib, core.GAddEdge, core.GAddEdgeW) {
-			if e.Common().Args[1] == s.Value() && rootP != nil && e.Common().Args[2] == ssa.Value(rootP) && e.Block() == s.Block() {
+		isRoot := func(v ssa.Value) bool { return rootP != nil && p.Bind(core.Strip(v)) == ssa.Value(rootP) }
+		type viaHelper struct {
+			h    *ssa.Function
+			call ssa.CallInstruction
+		}
+		var helpers []viaHelper
+		for _, in := range s.Block().Instrs {
+			if hc, ok := in.(ssa.CallInstruction); ok {
+				if h := hc.Common().StaticCallee(); p.PrivateHelper(h) {
+					for _, a := range hc.Common().Args {
+						if a == s.Value() {
+							helpers = append(helpers, viaHelper{h, hc})
+						}
+					}
+				}
+			}
+		}
+		argOf := func(vh viaHelper, v ssa.Value) ssa.Value {
+			if prm, ok := core.Strip(v).(*ssa.Parameter); ok && prm.Parent() == vh.h {
+				for i, q := range vh.h.Params {
+					if q == prm && i < len(vh.call.Common().Args) {
+						return vh.call.Common().Args[i]
+					}
+				}
+			}
+			return nil
+		}
+		for _, e := range p.RegionCalls(ib, core.GAddEdge, core.GAddEdgeW) {
+			if e.Parent() == s.Parent() && e.Common().Args[1] == s.Value() && isRoot(e.Common().Args[2]) && e.Block() == s.Block() {
 				edgeOK = true
+			}
+			for _, vh := range helpers {
+				if e.Parent() == vh.h && postDominatesEntry(vh.h, e.Block()) {
+					if a1, a2 := argOf(vh, e.Common().Args[1]), argOf(vh, e.Common().Args[2]); a1 == s.Value() && a2 != nil && isRoot(a2) {
+						edgeOK = true
+					}
+				}
 			}
 		}
 		if resultAcc != nil {
@@ -600,6 +635,11 @@ func (c *Ctx) runInputs(kinds *core.Kinds) {
 				for _, e := range appendedValues(ap) {
 					if e == s.Value() && ap.Block() == s.Block() {
 						tracked = true
+					}
+					for _, vh := range helpers {
+						if ap.Parent() == vh.h && postDominatesEntry(vh.h, ap.Block()) && argOf(vh, e) == s.Value() {
+							tracked = true
+						}
 					}
 				}
 			}
@@ -611,12 +651,12 @@ func (c *Ctx) runInputs(kinds *core.Kinds) {
 	if fb := c.P.MustRole("funcBuilder"); fb != nil {
 		supplied, generated := false, false
 		whyS, whyG := "no registration loop over the builder's converter list", "no registration of generated converters"
-		for _, ci := range core.Calls(ib) {
+		for _, ci := range p.RegionCalls(ib) {
 			if ci.Common().StaticCallee() != fb {
 				continue
 			}
 			recv := ci.Common().Args[0]
-			lits := core.Lits(core.Guards(ci.Block()))
+			lits := p.ILits(ci.Block())
 			// receiver: element of b.convs
 			if ld, ok := recv.(*ssa.UnOp); ok {
 				if ia, ok := ld.X.(*ssa.IndexAddr); ok {
@@ -640,6 +680,7 @@ func (c *Ctx) runInputs(kinds *core.Kinds) {
 						switch {
 						case core.IsLoopBound(l):
 						case l.Kind == "cmp" && l.Op == token.GTR:
+						case core.LitImpliesGreater(l, 0):
 						case l.Kind == "cmp" && l.Op == token.EQL && (core.IsNilConst(l.X) || core.IsNilConst(l.Y)):
 						default:
 							extra = l.String()
